@@ -79,14 +79,17 @@ def key_family(rng):
 
 def cb_case(rng, maxops):
     keys = key_family(rng)
-    ops = []
+    # caller-side freedom the library must not depend on: what the free callback returns, and whether
+    # cbtree_delete is handed a separate key buffer or the key stored inside the object (`delown`;
+    # the harness's callback scrubs and releases that memory)
+    ops = ["freeret 0"] if rng.below(4) == 0 else []
     for _ in range(1 + rng.below(maxops)):
         r = rng.below(100)
         k = vf.hexs(rng.choice(keys))
         if r < 40:
             ops.append("ins " + k)
         elif r < 60:
-            ops.append("del " + k)
+            ops.append(("delown " if r % 2 else "del ") + k)
         elif r < 80:
             ops.append("get " + k)
         elif r < 90:
@@ -191,9 +194,12 @@ def exhaustive_cb(nkeys, length):
     for k in keys:
         h = vf.hexs(k)
         opsets += ["ins " + h, "del " + h, "get " + h]
+    i = 0
     for n in range(1, length + 1):
         for combo in itertools.product(opsets, repeat=n):
-            yield list(combo) + ["walk 0", "destroy"]
+            i += 1
+            ops = [o.replace("del ", "delown ") for o in combo] if i % 2 else list(combo)
+            yield (["freeret 0"] if i % 4 >= 2 else []) + ops + ["walk 0", "destroy"]
 
 
 def rt_monitor(lines, c_lines):
@@ -232,7 +238,7 @@ def run(ck):
                       "bytes) for cbtree / strpool / mdict, plus all cbtree histories up to a length bound over a "
                       "small key set; a case is non-trivial when it is distinct and contains at least one mutating op")
     rng = vf.SplitMix(ck.seed)
-    nontriv = lambda c: any(l.split()[0] in ("ins", "del", "sget", "sdec", "mput", "mdel", "mdec") for l in c)
+    nontriv = lambda c: any(l.split()[0] in ("ins", "del", "delown", "sget", "sdec", "mput", "mdel", "mdec") for l in c)
     hist = {}
 
     def go(cases, label):
